@@ -27,7 +27,7 @@ use starky::verifier::verify_stark_proof_with_challenges;
 use crate::gen;
 use crate::mon::{catch, msg_class, norm_loc};
 use crate::props::c09::{Acc, Out};
-use crate::refmodel::{radd, rinv, rmul};
+use crate::refmodel::{radd, rinv, rmul, rsub};
 use crate::stk::{Cons, GenStark, Kind, Mono, Spec, Term, D, P};
 
 type C = PoseidonGoldilocksConfig;
@@ -266,9 +266,95 @@ fn prove_system<const N: usize>(sys: &System, ctls: &[CrossTableLookup<F>], conf
     prove_system_aux::<N>(sys, &sys.traces, ctls, config, stark)
 }
 
+/// A prover that rewrites the running-sum column(s) of one looking table of one lookup: with
+/// `close_the_gap` every value is shifted by the constant that makes the first-row opening match the
+/// looked table's total (the transition constraint survives a constant shift, the last-row one does
+/// not); without it the column is rewritten with the reference values themselves (control).
+#[derive(Clone, Copy)]
+struct ShiftPlan {
+    table: usize,
+    ctl: usize,
+    close_the_gap: bool,
+}
+
+fn comb(vals: &[u64], beta: u64, gamma: u64) -> u64 {
+    let mut c = 0u64;
+    for t in vals.iter().rev() {
+        c = radd(rmul(c, beta), *t);
+    }
+    radd(c, gamma)
+}
+
+/// Reference running sum of `sides` (all of one table): Z(last) = sum of terms(last), Z(r) = Z(r+1) + terms(r).
+fn ref_z(sys: &System, sides: &[&Side], beta: u64, gamma: u64) -> Vec<u64> {
+    let t = sides[0].table;
+    let n = sys.traces[t][0].len();
+    let mut z = vec![0u64; n];
+    for r in (0..n).rev() {
+        let mut term = 0u64;
+        for s in sides {
+            if sys.traces[t][s.filter][r] == 1 {
+                let vals: Vec<u64> = s.cols.iter().map(|&c| sys.traces[t][c][r]).collect();
+                term = radd(term, rinv(comb(&vals, beta, gamma)).unwrap_or(0));
+            }
+        }
+        z[r] = radd(term, if r + 1 < n { z[r + 1] } else { 0 });
+    }
+    z
+}
+
+/// Auxiliary-polynomial edits (poly, row, value) realising `plan` for the given challenges.
+fn shift_edits(sys: &System, ctls: &[CrossTableLookup<F>], config: &StarkConfig, stark: &S, chs: &GrandProductChallengeSet<F>, plan: ShiftPlan) -> Vec<(usize, usize, u64)> {
+    use starky::stark::Stark;
+    let mut edits = vec![];
+    let (total_helpers, _nz, _by) = CrossTableLookup::num_ctl_helpers_zs_all(ctls, plan.table, config.num_challenges, stark.constraint_degree());
+    let base = stark.num_lookup_helper_columns(config) + total_helpers;
+    let extra = extra_sums(sys, chs);
+    let mut cursor = vec![0usize; sys.n_tables];
+    for (ci, ctl) in sys.ctls.iter().enumerate() {
+        let mut distinct: Vec<usize> = vec![];
+        for sd in ctl.looking.iter() {
+            if !distinct.contains(&sd.table) {
+                distinct.push(sd.table);
+            }
+        }
+        for (c, ch) in chs.challenges.iter().enumerate() {
+            let (beta, gamma) = (ch.beta.0 % P, ch.gamma.0 % P);
+            let mut looking_sum = extra.get(&ci).map(|v| v[c].0 % P).unwrap_or(0);
+            let mut target: Option<(usize, Vec<u64>)> = None;
+            for &t in distinct.iter() {
+                let sides: Vec<&Side> = ctl.looking.iter().filter(|sd| sd.table == t).collect();
+                let z = ref_z(sys, &sides, beta, gamma);
+                looking_sum = radd(looking_sum, z[0]);
+                if ci == plan.ctl && t == plan.table {
+                    target = Some((cursor[t], z));
+                }
+                cursor[t] += 1;
+            }
+            let looked = ref_z(sys, &[&ctl.looked], beta, gamma);
+            cursor[ctl.looked.table] += 1;
+            if let Some((zi, z)) = target {
+                let delta = if plan.close_the_gap { rsub(looked[0], looking_sum) } else { 0 };
+                for (r, v) in z.iter().enumerate() {
+                    edits.push((base + zi, r, radd(*v, delta)));
+                }
+            }
+        }
+    }
+    edits
+}
+
+fn prove_system_shifted<const N: usize>(sys: &System, ctls: &[CrossTableLookup<F>], config: &StarkConfig, stark: &S, plan: ShiftPlan) -> Result<Proved, String> {
+    prove_system_full::<N>(sys, &sys.traces, ctls, config, stark, Some(plan))
+}
+
 /// `aux_traces`: the traces from which the cross-table running sums and helper columns are computed
 /// (a deviating prover may keep those of another trace than the committed one).
 fn prove_system_aux<const N: usize>(sys: &System, aux_traces: &[Vec<Vec<u64>>], ctls: &[CrossTableLookup<F>], config: &StarkConfig, stark: &S) -> Result<Proved, String> {
+    prove_system_full::<N>(sys, aux_traces, ctls, config, stark, None)
+}
+
+fn prove_system_full<const N: usize>(sys: &System, aux_traces: &[Vec<Vec<u64>>], ctls: &[CrossTableLookup<F>], config: &StarkConfig, stark: &S, plan: Option<ShiftPlan>) -> Result<Proved, String> {
     let polys: Vec<Vec<PolynomialValues<F>>> = sys.traces.iter().map(|t| crate::stk::to_poly_values(t)).collect();
     let aux_polys: Vec<Vec<PolynomialValues<F>>> = aux_traces.iter().map(|t| crate::stk::to_poly_values(t)).collect();
     let arr: [Vec<PolynomialValues<F>>; N] = aux_polys.try_into().map_err(|_| "table count".to_string())?;
@@ -281,8 +367,15 @@ fn prove_system_aux<const N: usize>(sys: &System, aux_traces: &[Vec<Vec<u64>>], 
         for i in 0..N {
             let mut ch = challenger.clone();
             config.observe(&mut ch);
-            let p = prove_with_commitment::<F, C, S, D>(stark, config, &polys[i], &commits[i], Some(&ctl_data[i]), Some(&ctl_challenges), &mut ch, &[], None, None, &mut TimingTree::default())?;
-            proofs.push(p);
+            let shifted = matches!(plan, Some(pl) if pl.table == i);
+            if shifted {
+                set_knobs(StarkProverKnobs { skip_constraint_check: true, lenient_truncation: true, aux_edits: shift_edits(sys, ctls, config, stark, &ctl_challenges, plan.unwrap()), ..Default::default() });
+            }
+            let p = prove_with_commitment::<F, C, S, D>(stark, config, &polys[i], &commits[i], Some(&ctl_data[i]), Some(&ctl_challenges), &mut ch, &[], None, None, &mut TimingTree::default());
+            if shifted {
+                set_knobs(StarkProverKnobs { skip_constraint_check: true, lenient_truncation: true, ..Default::default() });
+            }
+            proofs.push(p?);
         }
         Ok::<_, anyhow::Error>(proofs)
     });
@@ -409,6 +502,26 @@ fn run_n<const N: usize>(mut sys: System, rng: &mut ChaCha8Rng, case: u64, quick
         }
     }
     let proved = proved.unwrap();
+    // control: rewriting a running-sum column with the harness's reference values changes nothing
+    {
+        let ci = rng.gen_range(0..sys.ctls.len());
+        let t = sys.ctls[ci].looking[rng.gen_range(0..sys.ctls[ci].looking.len())].table;
+        set_knobs(StarkProverKnobs { skip_constraint_check: true, lenient_truncation: true, ..Default::default() });
+        let out = match prove_system_shifted::<N>(&sys, &ctls, &config, &stark, ShiftPlan { table: t, ctl: ci, close_the_gap: false }) {
+            Err(e) => Out::Refused(e),
+            Ok(p) => match verify_system::<N>(&sys, &ctls, &config, &stark, &p.proofs) {
+                Ok(()) => Out::Accepted,
+                Err(e) => Out::Rejected(e),
+            },
+        };
+        set_knobs(StarkProverKnobs::default());
+        acc.evals += 1;
+        acc.m("ctl.control:running_sum_rewritten_with_reference_values", &out.label());
+        if !matches!(out, Out::Accepted) {
+            acc.inconclusive.push(format!("harness: reference running sum differs from the prover's ({})", out.label()));
+            return;
+        }
+    }
     // ---- negatives on the traces ---------------------------------------------------------------
     set_knobs(StarkProverKnobs { skip_constraint_check: true, lenient_truncation: true, ..Default::default() });
     let reps = if quick { 1 } else { 2 };
@@ -439,6 +552,19 @@ fn run_n<const N: usize>(mut sys: System, rng: &mut ChaCha8Rng, case: u64, quick
                         },
                     };
                     judge(acc, &format!("{sname}_value_altered+running_sums_of_the_original_traces"), true, &out, &ctx, json!({"ctl": ci, "table": side.table, "row": row, "column": col, "entries_of_this_table": ctl.looking.iter().filter(|s| s.table == side.table).count()}));
+                }
+                // ... and with honest helper columns but the running sum of this table shifted by the
+                // constant that closes the gap to the looked table's total
+                if v && sname == "looking" {
+                    let plan = ShiftPlan { table: side.table, ctl: ci, close_the_gap: true };
+                    let out = match prove_system_shifted::<N>(&sys, &ctls, &config, &stark, plan) {
+                        Err(e) => Out::Refused(e),
+                        Ok(p) => match verify_system::<N>(&sys, &ctls, &config, &stark, &p.proofs) {
+                            Ok(()) => Out::Accepted,
+                            Err(e) => Out::Rejected(e),
+                        },
+                    };
+                    judge(acc, "looking_value_altered+running_sum_shifted_by_a_constant", true, &out, &ctx, json!({"ctl": ci, "table": side.table, "row": row, "column": col, "entries_of_this_table": ctl.looking.iter().filter(|s| s.table == side.table).count()}));
                 }
                 sys.traces[side.table][col][row] = old;
                 // filter flipped: one value more / one value less on this side
